@@ -3,14 +3,15 @@
    operators + - * / ^ < > with the class order and left associativity of makeRPN, parentheses, and function application
    F@(e) for D I D2 ABS SIGN DIODE SUM AVG MIN MAX (what F(e) and F{e} are rewritten to).  C02_operate is the end-to-end
    statement for expressions without '=': value returned = ordinary (kind-aware) denotation, track exactly as before.
-   C02_assign_new is the end-to-end statement for "name=expr" with a name that does not exist yet.
-   Named _partial where the property text asks for more than is proved here: overwriting an existing feature or a coordinate
-   with '=', unary minus and the surface rewriting F( -> F@( are tied to the code by the correspondence streams and the
+   C02_assign_new / C02_assign_over / C02_assign_coord are the end-to-end statements for "name=expr": name new, name an
+   existing feature, name one of x y z.
+   Named _partial where the property text asks for more than is proved here: unary minus and the surface rewriting
+   F( -> F@( (and "t=expr", which stores raw values as timestamps) are tied to the code by the correspondence streams and the
    tree-evaluator oracle only. *)
 From Coq Require Import List Ascii String Bool Arith ZArith QArith Lia.
 Import ListNotations.
 From TL Require Import Model.Str Model.Rpn Model.Table Model.Eval Model.Pipeline
-  Proofs.Table_inv Proofs.Rpn_parse Proofs.Rpn_output Proofs.Eval_sem Proofs.Eval_machine Proofs.Eval_run Proofs.Eval_top Proofs.Eval_operate Proofs.Eval_assign.
+  Proofs.Table_inv Proofs.Table_remove Proofs.Rpn_parse Proofs.Rpn_output Proofs.Eval_sem Proofs.Eval_machine Proofs.Eval_run Proofs.Eval_top Proofs.Eval_operate Proofs.Eval_assign.
 
 (* the parser: precedence classes, left associativity, parentheses - for every expression tree *)
 Theorem C02_parse : forall fuel e, wf e -> (size e < fuel)%nat -> makeRPN fuel (print e) = Rpn.Ok (postfix e).
@@ -54,6 +55,36 @@ Theorem C02_assign_new lhs e t d :
     /\ xs t3 = xs t /\ ys t3 = ys t /\ zs t3 = zs t /\ ts t3 = ts t.
 Proof. exact (operate_assign_new lhs e t d). Qed.
 
+(* name an existing feature: overwritten with the value of the tree (evaluated on the track as it was, so the name may occur in the
+   expression); the listed names are the same set (the name keeps its place for a constant, moves to the end for a vector);
+   every other feature and every coordinate reads as before *)
+Theorem C02_assign_over lhs i e t d :
+  Inv t -> coords_ok t -> Table.size t <> 0%nat -> fresh_from t 0 ->
+  (forall m, In m (names t) -> is_temp m = false) ->
+  lhs_ok lhs -> lookup (dico t) lhs = Some i ->
+  wf e -> wfe t e -> (0 < minclass e)%nat -> clean (print e) = true -> sem t e = Ok d ->
+  exists t3, operate_str t (assign_str lhs e) = Ok (t3, None)
+    /\ Inv t3 /\ (names t3 = names t \/ names t3 = filter (keep lhs) (names t) ++ [lhs])
+    /\ get_af t3 lhs = Ok (dcol (Table.size t) d)
+    /\ (forall m, m <> lhs -> has_af t m = true -> get_af t3 m = get_af t m)
+    /\ xs t3 = xs t /\ ys t3 = ys t /\ zs t3 = zs t /\ ts t3 = ts t.
+Proof. exact (operate_assign_over lhs i e t d). Qed.
+
+(* name one of x y z: that coordinate becomes the value of the tree; the other coordinates, the timestamps, the listed names and
+   every feature are unchanged, no temporary remains *)
+Theorem C02_assign_coord c e t d :
+  is_xyz c ->
+  Inv t -> coords_ok t -> Table.size t <> 0%nat -> fresh_from t 0 ->
+  (forall m, In m (names t) -> is_temp m = false) ->
+  wf e -> wfe t e -> (0 < minclass e)%nat -> clean (print e) = true -> sem t e = Ok d ->
+  exists t3, operate_str t (assign_str c e) = Ok (t3, None)
+    /\ Inv t3 /\ names t3 = names t
+    /\ coord_of t3 c = dcol (Table.size t) d
+    /\ (forall c', is_xyz c' -> c' <> c -> coord_of t3 c' = coord_of t c')
+    /\ ts t3 = ts t
+    /\ (forall m, m <> c -> has_af t m = true -> get_af t3 m = get_af t m).
+Proof. exact (operate_assign_coord c e t d). Qed.
+
 (* spaces anywhere in the input are irrelevant *)
 Theorem C02_spaces e t d s :
   filter (fun c => negb (Ascii.eqb c " ")) s = print e ->
@@ -71,6 +102,8 @@ Print Assumptions C02_machine.
 Print Assumptions C02_operate_partial.
 Print Assumptions C02_spaces.
 Print Assumptions C02_assign_new.
+Print Assumptions C02_assign_over.
+Print Assumptions C02_assign_coord.
 
 (* non-vacuity: every hypothesis of C02_operate_partial holds for a + 2 * (x - a) on a two-fix track, and for a+D@(x)+SUM@(a) *)
 Example C02_nonvacuous :
@@ -83,5 +116,13 @@ Proof. vm_compute. reflexivity. Qed.
 (* non-vacuity of C02_assign_new: c = a+2*(x-a) on the two-fix example track *)
 Example C02_assign_run : match operate_str t_ex (assign_str (s_ "c") e_ex) with
   | Ok (t3, None) => (List.length (names t3) =? 2)%nat && match get_af t3 (s_ "c") with Ok [Some a; Some b] => Qeq_bool a (-1) && Qeq_bool b 6 | _ => false end
+  | _ => false end = true.
+Proof. vm_compute. reflexivity. Qed.
+Example C02_assign_over_run : match operate_str t_ex (assign_str (s_ "a") e_ex) with
+  | Ok (t3, None) => (List.length (names t3) =? 1)%nat && match get_af t3 (s_ "a") with Ok [Some a; Some b] => Qeq_bool a (-1) && Qeq_bool b 6 | _ => false end
+  | _ => false end = true.
+Proof. vm_compute. reflexivity. Qed.
+Example C02_assign_coord_run : match operate_str t_ex (assign_str (s_ "y") e_ex) with
+  | Ok (t3, None) => (List.length (names t3) =? 1)%nat && match ys t3 with [Some a; Some b] => Qeq_bool a (-1) && Qeq_bool b 6 | _ => false end
   | _ => false end = true.
 Proof. vm_compute. reflexivity. Qed.
